@@ -601,6 +601,10 @@ func (c *v15Conn) addFrame(tok string) bool {
 func v15NewConn(t *testing.T, o *vu.Out, adv int, ack bool) *v15Conn {
 	c := &v15Conn{t: t, o: o, adv: adv, handlers: map[uint32]*v15Handler{}, streams: map[uint32]*v15Stream{}}
 	DisableGoroutineTracking(t)
+	SetTestHookOnPanic(t, func(sc *ServerConn, v interface{}) bool {
+		o.Fail("", fmt.Sprintf("serverConn.serve panicked: %v", v))
+		return false
+	})
 	c.st = newServerTester(t, c.serveHTTP, func(s *Server) {
 		s.MaxConcurrentStreams = uint32(adv)
 	}, optQuiet)
